@@ -143,14 +143,14 @@ void add_exclusive_ops(Instance& in, bool enabled)
         int hi = h_begin(X_LOCK);
         auto h = w.lock();
         MC_CHECK(bool(h), "null-handle", "lock() returned a null handle");
-        use_exclusive(h, hi, &w.m_mutex, enabled);
+        use_exclusive(h, hi, mutex_of(&w), enabled);
     };
     in.ops[X_LOCK_UNLOCK] = [enabled](void* p, int) {
         W& w = *(W*)p;
         int hi = h_begin(X_LOCK_UNLOCK);
         auto h = w.lock();
         MC_CHECK(bool(h), "null-handle", "lock() returned a null handle");
-        use_exclusive(h, hi, &w.m_mutex, enabled);
+        use_exclusive(h, hi, mutex_of(&w), enabled);
         h.unlock();
         MC_CHECK(!bool(h), "unlock-not-null", "handle still non-null after unlock()");
     };
@@ -158,7 +158,7 @@ void add_exclusive_ops(Instance& in, bool enabled)
         W& w = *(W*)p;
         int hi = h_begin(X_TRY);
         auto h = w.try_lock();
-        use_exclusive(h, hi, &w.m_mutex, enabled);
+        use_exclusive(h, hi, mutex_of(&w), enabled);
     };
     in.ops[X_HANDOVER] = [enabled](void* p, int) {
         // lock coupling: the handle of this wrapper is move-assigned from a lock() of a second wrapper; the
@@ -168,10 +168,10 @@ void add_exclusive_ops(Instance& in, bool enabled)
         int hi = h_begin(X_HANDOVER);
         auto h = w.lock();
         MC_CHECK(bool(h), "null-handle", "lock() returned a null handle");
-        use_exclusive(h, hi, &w.m_mutex, enabled);
+        use_exclusive(h, hi, mutex_of(&w), enabled);
         h = o.lock();
-        MC_CHECK(bool(h) && &*h == &o.m_obj, "handover-target", "after h = other.lock() the handle does not refer to the other object");
-        if (enabled) MC_CHECK(holds(&w.m_mutex) == 0, "leaked-lock", "after h = other.lock() this thread still holds the first wrapper's lock");
+        MC_CHECK(bool(h) && &*h == obj_of(&o), "handover-target", "after h = other.lock() the handle does not refer to the other object");
+        if (enabled) MC_CHECK(holds(mutex_of(&w)) == 0, "leaked-lock", "after h = other.lock() this thread still holds the first wrapper's lock");
     };
     in.ops[X_RETRY] = [enabled](void* p, int) {
         // a handle that came back null from a try is reused for a blocking acquisition
@@ -180,20 +180,20 @@ void add_exclusive_ops(Instance& in, bool enabled)
         auto h = w.try_lock();
         if (!h) h = w.lock();
         MC_CHECK(bool(h), "null-handle", "handle null after being assigned lock()");
-        use_exclusive(h, hi, &w.m_mutex, enabled);
+        use_exclusive(h, hi, mutex_of(&w), enabled);
     };
     if constexpr (is_timed<M>::value) {
         in.ops[X_TRY_FOR] = [enabled](void* p, int) {
             W& w = *(W*)p;
             int hi = h_begin(X_TRY_FOR);
             auto h = w.try_lock_for(5ms);
-            use_exclusive(h, hi, &w.m_mutex, enabled);
+            use_exclusive(h, hi, mutex_of(&w), enabled);
         };
         in.ops[X_TRY_UNTIL] = [enabled](void* p, int) {
             W& w = *(W*)p;
             int hi = h_begin(X_TRY_UNTIL);
             auto h = w.try_lock_until(std::chrono::steady_clock::now() + 5ms);
-            use_exclusive(h, hi, &w.m_mutex, enabled);
+            use_exclusive(h, hi, mutex_of(&w), enabled);
         };
     }
 }
@@ -245,13 +245,13 @@ void add_shared_ops(Instance& in, bool enabled)
         int hi = h_begin(S_LOCK);
         auto h = w.lock_shared();
         MC_CHECK(bool(h), "null-handle", "lock_shared() returned a null handle");
-        use_shared(h, hi, &w.m_mutex, enabled);
+        use_shared(h, hi, mutex_of(&w), enabled);
     };
     in.ops[S_TRY] = [enabled](void* p, int) {
         const W& w = *(const W*)p;
         int hi = h_begin(S_TRY);
         auto h = w.try_lock_shared();
-        use_shared(h, hi, &w.m_mutex, enabled);
+        use_shared(h, hi, mutex_of(&w), enabled);
     };
     in.ops[S_HANDOVER] = [enabled](void* p, int) {
         const W& w = *(const W*)p;
@@ -259,10 +259,10 @@ void add_shared_ops(Instance& in, bool enabled)
         int hi = h_begin(S_HANDOVER);
         auto h = w.lock_shared();
         MC_CHECK(bool(h), "null-handle", "lock_shared() returned a null handle");
-        use_shared(h, hi, &w.m_mutex, enabled);
+        use_shared(h, hi, mutex_of(&w), enabled);
         h = o.lock_shared();
-        MC_CHECK(bool(h) && &*h == &o.m_obj, "handover-target", "after h = other.lock_shared() the handle does not refer to the other object");
-        if (enabled) MC_CHECK(holds(&w.m_mutex) == 0, "leaked-lock", "after h = other.lock_shared() this thread still holds the first wrapper's lock");
+        MC_CHECK(bool(h) && &*h == obj_of(&o), "handover-target", "after h = other.lock_shared() the handle does not refer to the other object");
+        if (enabled) MC_CHECK(holds(mutex_of(&w)) == 0, "leaked-lock", "after h = other.lock_shared() this thread still holds the first wrapper's lock");
     };
     in.ops[S_RETRY] = [enabled](void* p, int) {
         const W& w = *(const W*)p;
@@ -270,20 +270,20 @@ void add_shared_ops(Instance& in, bool enabled)
         auto h = w.try_lock_shared();
         if (!h) h = w.lock_shared();
         MC_CHECK(bool(h), "null-handle", "handle null after being assigned lock_shared()");
-        use_shared(h, hi, &w.m_mutex, enabled);
+        use_shared(h, hi, mutex_of(&w), enabled);
     };
     if constexpr (is_timed<M>::value) {
         in.ops[S_TRY_FOR] = [enabled](void* p, int) {
             const W& w = *(const W*)p;
             int hi = h_begin(S_TRY_FOR);
             auto h = w.try_lock_shared_for(5ms);
-            use_shared(h, hi, &w.m_mutex, enabled);
+            use_shared(h, hi, mutex_of(&w), enabled);
         };
         in.ops[S_TRY_UNTIL] = [enabled](void* p, int) {
             const W& w = *(const W*)p;
             int hi = h_begin(S_TRY_UNTIL);
             auto h = w.try_lock_shared_until(std::chrono::steady_clock::now() + 5ms);
-            use_shared(h, hi, &w.m_mutex, enabled);
+            use_shared(h, hi, mutex_of(&w), enabled);
         };
     }
     if constexpr (with_const_lock) {
@@ -293,7 +293,7 @@ void add_shared_ops(Instance& in, bool enabled)
                 int hi = h_begin(S_CONST_LOCK);
                 auto h = w.lock();
                 MC_CHECK(bool(h), "null-handle", "const lock() returned a null handle");
-                use_shared(h, hi, &w.m_mutex, enabled);
+                use_shared(h, hi, mutex_of(&w), enabled);
             };
         }
     }
@@ -306,24 +306,60 @@ struct has_lock_shared<M, std::void_t<decltype(std::declval<M&>().lock_shared())
 template<class M>
 constexpr bool shared_capable_v = has_lock_shared<M>::value;
 
+template<class W, class = void>
+struct has_lock_m: std::false_type {};
+template<class W>
+struct has_lock_m<W, std::void_t<decltype(std::declval<W&>().lock())>>: std::true_type {};
+template<class W, class = void>
+struct has_lock_shared_m: std::false_type {};
+template<class W>
+struct has_lock_shared_m<W, std::void_t<decltype(std::declval<const W&>().lock_shared())>>: std::true_type {};
+
+// one acquisition through the public interface tells which lock belongs to the wrapper and where the object is
+template<class W>
+void* probe_wrapper(W* w)
+{
+    WInfo& wi = winfo_of(w);
+    hx::g_no_faults = true;  // the probe is the harness's own call, not one of the client operations under test
+    wi.mtx = hx::probe_lock([&] {
+        if constexpr (has_lock_m<W>::value) {
+            auto h = w->lock();
+            if (h) wi.obj = &*h;
+        } else if constexpr (has_lock_shared_m<W>::value) {
+            auto h = w->lock_shared();
+            if (h) wi.obj = &*h;
+        } else {
+            (void)w->load();
+        }
+    });
+    hx::g_no_faults = false;
+    return (void*)w;
+}
+
 template<class W>
 void basic(Instance& in, const std::string& name)
 {
     in.name = name;
-    in.create = [] { return (void*)new W(0); };
-    in.destroy = [](void* p) { delete (W*)p; };
-    in.mutex_addr = [](void* p) { return (const void*)&((W*)p)->m_mutex; };
-    in.obj_addr = [](void* p) { return (const Pair*)&((W*)p)->m_obj; };
+    in.create = [] { return probe_wrapper(new W(0)); };
+    in.destroy = [](void* p) {
+        forget_wrapper(p);
+        delete (W*)p;
+    };
+    in.mutex_addr = [](void* p) { return mutex_of(p); };
+    in.obj_addr = [](void* p) { return obj_of(p); };
 }
 template<class W>
 void basic_opt(Instance& in, const std::string& name, bool enabled)
 {
     in.name = name + (enabled ? "(locking on)" : "(locking off)");
     in.enabled = enabled;
-    in.create = [enabled] { return (void*)new W(enabled, 0); };
-    in.destroy = [](void* p) { delete (W*)p; };
-    in.mutex_addr = [](void* p) { return (const void*)&((W*)p)->m_mutex; };
-    in.obj_addr = [](void* p) { return (const Pair*)&((W*)p)->m_obj; };
+    in.create = [enabled] { return probe_wrapper(new W(enabled, 0)); };
+    in.destroy = [](void* p) {
+        forget_wrapper(p);
+        delete (W*)p;
+    };
+    in.mutex_addr = [](void* p) { return mutex_of(p); };
+    in.obj_addr = [](void* p) { return obj_of(p); };
 }
 
 template<class M>
